@@ -289,10 +289,13 @@ def main(prop, argv=None):
     ap.add_argument('--max-paths', type=int)
     ap.add_argument('--no-evidence', action='store_true')
     ap.add_argument('--verbose', action='store_true')
+    ap.add_argument('--target', action='append')
     args = ap.parse_args(argv)
     tier = args.tier if args.tier in ('quick', 'thorough') else 'quick'
     seed = int(os.environ.get('VERIF_SEED', '0') or 0)
     mod = _load_prop(prop)
+    if hasattr(mod, 'CUSTOM_MAIN'):
+        return mod.CUSTOM_MAIN(prop, argv if argv is not None else sys.argv[1:])
     if args.replay:
         return replay(prop, mod, args.replay)
     t0 = time.time()
@@ -488,6 +491,11 @@ def main(prop, argv=None):
               file=sys.stderr)
         rc = HARNESS_ERROR
 
+    extra_ev = None
+    if hasattr(mod, 'EXTRA') and not args.kernel:
+        xrc, extra_ev = mod.EXTRA(prop, argv if argv is not None else sys.argv[1:])
+        if xrc == 1 or (xrc and rc == 0):
+            rc = xrc
     if not args.no_evidence:
         samples = []
         for r in results:
@@ -534,6 +542,11 @@ def main(prop, argv=None):
             'wall_s': wall,
             'violations': len(reported),
         }
+        if extra_ev:
+            ev['coverage']['crosshair'] = extra_ev['coverage']
+            ev['assumptions'] = sorted(set(ev['assumptions']) | set(extra_ev.get('assumptions', [])))
+            ev['violations'] += extra_ev.get('violations', 0)
+            ev['coverage']['exhaustive'] = bool(ev['coverage']['exhaustive'] and extra_ev['coverage'].get('exhaustive'))
         os.makedirs(os.path.join(VERIF, 'evidence'), exist_ok=True)
         with open(os.path.join(VERIF, 'evidence', f'{prop}.json'), 'w') as f:
             json.dump(ev, f, indent=1)
